@@ -155,11 +155,40 @@ fn one_mapping(text: &[u8], rng: &mut Rng, rep: &mut Reporter, case_idx: u64, ct
         let Ok(ref_cache) = cur::parse_cache(buf.as_slice()) else { return 0 };
         (batch.iter().map(|q| answer(&ref_mapper, q)).collect(), batch.iter().map(|q| answer(&ref_cache, q)).collect())
     };
-    let mapper = ForceShare(cur::mapper(text, true));
-    let cache = match cur::parse_cache(buf.as_slice()) {
-        Ok(c) => ForceShare(c),
-        Err(_) => return 0,
+    // A second mapping with the same obfuscated names but different originals: the same
+    // worker threads query both, so per-thread or per-process state keyed too coarsely
+    // (e.g. by an id that repeats across handles) shows as one handle's answers leaking
+    // into the other's.
+    let text_b: Vec<u8> = {
+        let t = String::from_utf8_lossy(text).replace("com.example", "org.sample").replace("java.lang", "jv.lng").replace("kotlin.", "kt.");
+        t.into_bytes()
     };
+    let has_b = text_b != text && std::str::from_utf8(text).is_ok();
+    let bytes_b = cur::write_cache(&text_b).expect("write to Vec");
+    let buf_b = AlignedBuf::from_bytes(&bytes_b);
+    let (exp_mb, exp_cb): (Vec<String>, Vec<String>) = if has_b {
+        let ref_mapper = cur::mapper(&text_b, true);
+        let Ok(ref_cache) = cur::parse_cache(buf_b.as_slice()) else { return 0 };
+        (batch.iter().map(|q| answer(&ref_mapper, q)).collect(), batch.iter().map(|q| answer(&ref_cache, q)).collect())
+    } else {
+        (vec![], vec![])
+    };
+    // the shared handles are built on two helper threads (each the first handle its
+    // thread ever built), not on the thread that issues or checks the queries
+    let built = std::thread::scope(|s| {
+        let ha = s.spawn(|| (cur::mapper(text, true), cur::parse_cache(buf.as_slice()).ok()));
+        let hb = s.spawn(|| (cur::mapper(&text_b, true), cur::parse_cache(buf_b.as_slice()).ok()));
+        (ha.join().expect("builder thread"), hb.join().expect("builder thread"))
+    });
+    let ((mapper_a, cache_a), (mapper_b, cache_b)) = built;
+    let (Some(cache_a), Some(cache_b)) = (cache_a, cache_b) else { return 0 };
+    let mapper = ForceShare(mapper_a);
+    let cache = ForceShare(cache_a);
+    let mapper_b = ForceShare(mapper_b);
+    let cache_b = ForceShare(cache_b);
+    if has_b {
+        rep.count("mappings_with_a_second_handle_built_on_another_thread", 1);
+    }
     let nthreads = if ctx.variant == "miri" { 3 } else { *rng.pick(&[2usize, 4, 8, 16]) };
     let clock = AtomicU64::new(0);
     let barrier = Arc::new(Barrier::new(nthreads));
@@ -187,6 +216,7 @@ fn one_mapping(text: &[u8], rng: &mut Rng, rep: &mut Reporter, case_idx: u64, ct
             .map(|(_t, (idx, seed))| {
                 let b = barrier.clone();
                 let (mapper, cache, batch, exp_m, exp_c, clock) = (&mapper, &cache, &batch, &exp_m, &exp_c, &clock);
+                let (mapper_b, cache_b, exp_mb, exp_cb) = (&mapper_b, &cache_b, &exp_mb, &exp_cb);
                 let seed = *seed;
                 s.spawn(move || {
                     let mut r = Rng::new(seed);
@@ -194,11 +224,23 @@ fn one_mapping(text: &[u8], rng: &mut Rng, rep: &mut Reporter, case_idx: u64, ct
                     b.wait();
                     for &i in idx {
                         let use_cache = r.chance(1, 2);
+                        let second = has_b && r.chance(1, 3);
                         let st = clock.fetch_add(1, Ordering::SeqCst);
-                        let a = if use_cache { answer(&cache.0, &batch[i]) } else { answer(&mapper.0, &batch[i]) };
+                        let a = match (use_cache, second) {
+                            (true, false) => answer(&cache.0, &batch[i]),
+                            (false, false) => answer(&mapper.0, &batch[i]),
+                            (true, true) => answer(&cache_b.0, &batch[i]),
+                            (false, true) => answer(&mapper_b.0, &batch[i]),
+                        };
                         let en = clock.fetch_add(1, Ordering::SeqCst);
-                        let ok = if use_cache { a == exp_c[i] } else { a == exp_m[i] };
-                        log.push((i, st, en, use_cache, ok));
+                        let ok = match (use_cache, second) {
+                            (true, false) => a == exp_c[i],
+                            (false, false) => a == exp_m[i],
+                            (true, true) => a == exp_cb[i],
+                            (false, true) => a == exp_mb[i],
+                        };
+                        // the second handle is logged under a disjoint key space
+                        log.push((if second { i + batch.len() } else { i }, st, en, use_cache, ok));
                         match r.below(8) {
                             0 => std::thread::yield_now(),
                             1 => {
@@ -225,11 +267,19 @@ fn one_mapping(text: &[u8], rng: &mut Rng, rep: &mut Reporter, case_idx: u64, ct
             order.push((*st, t));
             by_key.entry((*i, *use_cache)).or_default().push((*st, *en, t));
             if !ok {
+                let second = *i >= batch.len();
+                let i = &(*i % batch.len());
                 let mut d = Json::obj();
+                d.set("handle", Json::s(if second { "second mapping (built on another thread)" } else { "first mapping" }));
                 d.set("query", Json::s(format!("{:?}", batch[*i])));
                 d.set("implementation", Json::s(if *use_cache { "cache" } else { "mapper" }));
                 d.set("threads", Json::i(nthreads as u64));
-                d.set("sequential_answer", Json::s(if *use_cache { exp_c[*i].clone() } else { exp_m[*i].clone() }));
+                d.set("sequential_answer", Json::s(match (*use_cache, second) {
+                    (true, false) => exp_c[*i].clone(),
+                    (false, false) => exp_m[*i].clone(),
+                    (true, true) => exp_cb[*i].clone(),
+                    (false, true) => exp_mb[*i].clone(),
+                }));
                 rep.violation(case_idx, "concurrent-vs-sequential", &format!("a query issued concurrently returned a different answer than when issued alone impl={}", if *use_cache { "cache" } else { "mapper" }), d);
             }
         }
